@@ -4,7 +4,8 @@ import os, sys, random
 
 def scenarios():
     return ['vq-euclid', 'vq-cosine', 'vq-heads-sep', 'vq-euclid-masked', 'vq-cosine-masked', 'vq-expiry', 'vq-cosine-expiry', 'vq-cosine-heads-expiry', 'vq-kmeans', 'vq-cosine-kmeans-expiry', 'rvq-cosine-shared', 'rvq-layers-dropout', 'rvq-shared', 'lfq',
-            'vq-expiry-scarce', 'vq-cosine-expiry-scarce', 'vq-kmeans-scarce-frozen-first', 'vq-cosine-kmeans-scarce-frozen-first']
+            'vq-expiry-scarce', 'vq-cosine-expiry-scarce', 'vq-kmeans-scarce-frozen-first', 'vq-cosine-kmeans-scarce-frozen-first',
+            'vq-kmeans-learnable', 'rvq-kmeans-implicit']
 
 
 def build(name, sync=True):
@@ -44,6 +45,11 @@ def build(name, sync=True):
         return VectorQuantize(dim=3, codebook_size=40, kmeans_init=True, kmeans_iters=2, decay=0.5, sync_codebook=sync), 3
     if name == 'vq-cosine-kmeans-scarce-frozen-first':
         return VectorQuantize(dim=3, codebook_size=40, kmeans_init=True, kmeans_iters=2, use_cosine_sim=True, decay=0.5, sync_codebook=sync), 3
+    # k-means initialisation of a codebook that is NOT maintained by the EMA afterwards (learnable / implicit): the init itself is still synchronised
+    if name == 'vq-kmeans-learnable':
+        return VectorQuantize(dim=3, codebook_size=4, kmeans_init=True, kmeans_iters=3, learnable_codebook=True, ema_update=False, sync_codebook=sync), 3
+    if name == 'rvq-kmeans-implicit':
+        return ResidualVQ(dim=3, num_quantizers=2, codebook_size=4, kmeans_init=True, kmeans_iters=2, implicit_neural_codebook=True, mlp_kwargs=dict(dim_hidden=4, depth=1), sync_codebook=sync), 3
     if name == 'lfq':
         return LFQ(dim=3, codebook_size=8, commitment_loss_weight=0.25), 3
     raise KeyError(name)
